@@ -1,4 +1,4 @@
-(* C05 for an arbitrary strict total order.
+(* C05 for an arbitrary strict total order, and for strict weak orders.
 
    The heap theorems of HeapInv.v / HeapHist.v are proved at W := Z (so that [lia] applies).  Here
    the invariant, the abstract priority queue and the validity of operations are re-stated for any
@@ -13,16 +13,21 @@
         ranked heap returns the same output and the ranked successor heap;
      3. [InvW] / [valid_opW] hold of a heap over [W] iff [Inv] / [valid_op] hold of the ranked
         heap ([InvW_map], [valid_op_map]); a step of the abstract queue over Z between ranked
-        states is a step of the abstract queue over [W] ([pq_step_back]; this is where
-        injectivity of [r], i.e. Leibniz antisymmetry of the order, is used: "the cost table is
-        unchanged" must be pulled back from the ranks).
+        states is a step of the abstract queue over [W] ([pq_step_back]).  "The cost table is
+        unchanged / updated at p" cannot be pulled back from the ranks unless the rank map is
+        injective (Leibniz antisymmetry); it is instead read off the model directly
+        ([step_hcost]: the sift loops never write the cost array).  With that, nothing but
+        "the two comparisons agree on the values that occur" is needed, so the whole transfer
+        works for a STRICT WEAK order on a set [P] of admissible costs (Proofs/WeakOrder.v):
+        binary64 numbers other than NaN under [PrimFloat.ltb], -0 and +0 left distinct.
 
    The history-level statements then follow from the one-step theorem by induction on the
-   history, exactly as in HeapHist.v (those derivations never look at the order). *)
+   history, exactly as in HeapHist.v (those derivations never look at the order).  The
+   strict-total-order versions are the instances P := everything. *)
 From Coq Require Import List Arith Bool ZArith Lia Permutation.
 From OPF Require Import Base.Lists Base.TotalOrder Model.Heap.
 From OPF Require Import Proofs.HeapBase Proofs.HeapInv Proofs.HeapHist Proofs.OrderEmbed
-  Proofs.ParamBase Proofs.ParamHeap.
+  Proofs.ParamBase Proofs.ParamHeap Proofs.WeakOrder.
 Import ListNotations.
 Close Scope Z_scope.
 
@@ -236,33 +241,59 @@ Lemma map_op_inv {W} (f : W -> Z) (o : @op W) :
   end.
 Proof. destruct o as [p|p c| | |]; cbn [map_op]; try reflexivity. now exists c. Qed.
 
+(* ---------- the sift loops never write the cost array ---------- *)
+
+Section Frame.
+  Context {W : Type} (ltb : W -> W -> bool) (top : W).
+
+  Lemma go_up_hcost fuel : forall (h : heap W) i, hcost (go_up ltb top fuel h i) = hcost h.
+  Proof.
+    induction fuel as [|f IH]; intros h i; cbn [go_up]; [reflexivity|].
+    destruct (Nat.ltb 0 i && better ltb (hpol h) (pcost top h i) (pcost top h (dad i)));
+      [|reflexivity].
+    now rewrite IH.
+  Qed.
+
+  Lemma go_down_hcost fuel : forall (h : heap W) i, hcost (go_down ltb top fuel h i) = hcost h.
+  Proof.
+    induction fuel as [|f IH]; intros h i; cbn [go_down]; [reflexivity|].
+    cbv zeta. match goal with |- hcost (if ?b then _ else _) = _ => destruct b end; [reflexivity|].
+    now rewrite IH.
+  Qed.
+
+  Lemma insert_hcost (h : heap W) p : hcost (fst (insert ltb top h p)) = hcost h.
+  Proof. unfold insert. destruct (is_full h); cbn [fst]; [reflexivity|]. now rewrite go_up_hcost. Qed.
+
+  Lemma step_hcost (h : heap W) (o : @op W) :
+    hcost (fst (step ltb top h o)) =
+    match o with OUpd p c => upd (hcost h) p c | _ => hcost h end.
+  Proof.
+    destruct o as [p|p c| | |]; cbn [step]; try reflexivity.
+    - pose proof (insert_hcost h p) as H. destruct (insert ltb top h p) as [h' b]. exact H.
+    - cbn [fst]. unfold update. destruct (nth p (hcolor (set_cost h p c)) White).
+      + now rewrite insert_hcost.
+      + destruct (nth p (hpos (set_cost h p c)) None); [now rewrite go_up_hcost | reflexivity].
+      + destruct (nth p (hpos (set_cost h p c)) None); [now rewrite go_up_hcost | reflexivity].
+    - unfold remove. destruct (is_empty h); cbn [fst]; [reflexivity|]. now rewrite go_down_hcost.
+  Qed.
+End Frame.
+
 Section Transfer.
-  Context {W : Type} (ltb : W -> W -> bool).
-  Hypothesis O : strict_total_order ltb.
+  Context {W : Type} (P : W -> Prop) (ltb : W -> W -> bool).
+  Hypothesis O : strict_weak_order_on P ltb.
   Variable vals : list W.
+  Hypothesis Hvals : Forall P vals.
   Variable top : W.
   Hypothesis Htop : In top vals.
 
   Local Notation inV := (fun a : W => In a vals).
   Local Notation r := (rk ltb vals).
 
+  Lemma rk_ltb_v a b : inV a -> inV b -> Z.ltb (r a) (r b) = ltb a b.
+  Proof. exact (rk_ltb_w P ltb O vals Hvals a b). Qed.
+
   Lemma better_map pol x y : inV x -> inV y -> better Z.ltb pol (r x) (r y) = better ltb pol x y.
-  Proof. intros Hx Hy. destruct pol; cbn [better]; now apply rk_ltb. Qed.
-
-  Lemma map_r_inj l l' : Forall inV l -> Forall inV l' -> map r l = map r l' -> l = l'.
-  Proof.
-    intros Hl. revert l'. induction Hl as [|a l Ha _ IH]; intros [|b l'] Hl' E; cbn [map] in E;
-      try discriminate E; [reflexivity|].
-    injection E as E1 E2. f_equal.
-    - exact (rk_inj ltb O vals a b Ha (Forall_inv Hl') E1).
-    - exact (IH l' (Forall_inv_tail Hl') E2).
-  Qed.
-
-  Lemma Forall_upd l p c : Forall inV l -> inV c -> Forall inV (upd l p c).
-  Proof.
-    intros Hl Hc. revert p. induction Hl as [|a l Ha Hl' IH]; intros p; cbn [upd]; [constructor|].
-    destruct p as [|p]; constructor; auto.
-  Qed.
+  Proof. intros Hx Hy. destruct pol; cbn [better]; now apply rk_ltb_v. Qed.
 
   Lemma map_upd l p c : map r (upd l p c) = upd (map r l) p (r c).
   Proof.
@@ -345,13 +376,15 @@ Section Transfer.
     rewrite better_map in H2 by (now apply (Forall_in_nth vals)). exact H2.
   Qed.
 
-  (* a step of the abstract queue over Z between ranked states is a step over W *)
+  (* a step of the abstract queue over Z between ranked states is a step over W, provided the
+     cost table of the successor is the one the operation prescribes (read off the model) *)
   Theorem pq_step_back size pol (a a' : pqW W) (o : @op W) (res : out) :
-    Forall inV (pqw_cost a) -> Forall inV (pqw_cost a') -> Forall inV (op_costs o) ->
+    Forall inV (pqw_cost a) ->
+    pqw_cost a' = match o with OUpd p c => upd (pqw_cost a) p c | _ => pqw_cost a end ->
     pq_step (r top) size pol (map_pq r a) (map_op r o) res (map_pq r a') ->
     pq_stepW ltb top size pol a o res a'.
   Proof.
-    intros Ha Ha' Ho H.
+    intros Ha Hc H.
     destruct a as [e1 c1 col1], a' as [e2 c2 col2]. unfold map_pq in H.
     cbn [pqw_elems pqw_cost pqw_color] in *.
     pose proof (map_op_inv r o) as Hinv.
@@ -365,13 +398,11 @@ Section Transfer.
                    |az Ea Eo Er Ea'
                    |az Ea Eo Er Ea'];
       subst az; rewrite <- Eo in Hinv; cbn [pq_elems pq_cost pq_color] in *; clear H Eo;
-      try (destruct Hinv as (c & -> & ->); assert (Hc : inV c) by exact (Forall_inv Ho));
+      try (destruct Hinv as (c & -> & _));
       try subst o;
       repeat match goal with
-             | E : map r _ = map r _ |- _ =>
-                 apply map_r_inj in E; [|assumption|assumption]
-             | E : upd (map r _) _ (r _) = map r _ |- _ =>
-                 rewrite <- map_upd in E; apply map_r_inj in E; [|now apply Forall_upd|assumption]
+             | E : map r _ = map r _ |- _ => clear E
+             | E : upd (map r _) _ _ = map r _ |- _ => clear E
              end;
       repeat match goal with
              | E : ?x = ?y |- _ => is_var y; match type of y with list _ => subst y end
@@ -390,23 +421,57 @@ Section Transfer.
 End Transfer.
 
 (* ------------------------------------------------------------------------------------ *)
-(* the lifted theorems                                                                   *)
+(* the lifted theorems, for a strict weak order on the admissible costs [P]               *)
 
 Lemma map_repeat_Z {A B} (f : A -> B) a n : map f (repeat a n) = repeat (f a) n.
 Proof. induction n as [|n IH]; cbn [repeat map]; [reflexivity | now rewrite IH]. Qed.
 
-Section Lifted.
-  Context {W : Type} (ltb : W -> W -> bool).
-  Hypothesis O : strict_total_order ltb.
+(* every cost carried by an operation of the history is admissible *)
+Definition ops_in {W} (P : W -> Prop) (ops : list (@op W)) : Prop :=
+  Forall (fun o => Forall P (op_costs o)) ops.
+
+Lemma Forall_upd_P {W} (P : W -> Prop) l p c : Forall P l -> P c -> Forall P (upd l p c).
+Proof.
+  intros Hl Hc. revert p. induction Hl as [|a l Ha Hl' IH]; intros p; cbn [upd]; [constructor|].
+  destruct p as [|p]; constructor; auto.
+Qed.
+
+Section LiftedWeak.
+  Context {W : Type} (P : W -> Prop) (ltb : W -> W -> bool).
+  Hypothesis O : strict_weak_order_on P ltb.
   Variable top : W.
+  Hypothesis Ptop : P top.
 
   Notation stepW := (step ltb top).
   Notation runW := (run ltb top).
 
-  Theorem inv_init_W size pol : InvW ltb (h_init top size pol).
+  (* admissible costs stay admissible *)
+  Lemma step_costs_in h o :
+    Forall P (hcost h) -> Forall P (op_costs o) -> Forall P (hcost (fst (stepW h o))).
+  Proof.
+    intros Hh Ho. rewrite step_hcost. destruct o as [p|p c| | |]; try exact Hh.
+    apply Forall_upd_P; [exact Hh | exact (Forall_inv Ho)].
+  Qed.
+
+  Lemma run_costs_in ops : forall h,
+    Forall P (hcost h) -> ops_in P ops -> Forall P (hcost (fst (runW h ops))).
+  Proof.
+    induction ops as [|o os IH]; intros h Hh Hops; cbn [run]; [exact Hh|].
+    pose proof (step_costs_in h o Hh (Forall_inv Hops)) as H1.
+    destruct (stepW h o) as [h1 r1]. cbn [fst] in H1.
+    specialize (IH h1 H1 (Forall_inv_tail Hops)). destruct (runW h1 os) as [h2 rs]. exact IH.
+  Qed.
+
+  Lemma init_costs_in size pol : Forall P (hcost (h_init top size pol)).
+  Proof.
+    unfold h_init. cbn [hcost]. apply Forall_forall. intros x Hx. apply repeat_spec in Hx. now subst.
+  Qed.
+
+  Theorem inv_init_Ww size pol : InvW ltb (h_init top size pol).
   Proof.
     assert (Ht : In top [top]) by now left.
-    apply (InvW_map ltb O [top] top Ht).
+    assert (Hv : Forall P [top]) by (constructor; [exact Ptop | constructor]).
+    apply (InvW_map P ltb O [top] Hv top Ht).
     - unfold h_init. cbn [hcost]. apply Forall_forall. intros x Hx. apply repeat_spec in Hx. now left.
     - replace (map_heap (rk ltb [top]) (h_init top size pol))
         with (h_init (rk ltb [top] top) size pol).
@@ -415,67 +480,149 @@ Section Lifted.
   Qed.
 
   (* one operation: invariant kept, the abstract queue makes the same step, elements conserved *)
-  Theorem step_spec_W h o :
+  Theorem step_spec_Ww h o :
+    Forall P (hcost h) -> Forall P (op_costs o) ->
     InvW ltb h -> valid_opW ltb top h o ->
     let '(h', res) := stepW h o in
     InvW ltb h' /\ hsize h' = hsize h /\ hpol h' = hpol h /\
     pq_stepW ltb top (hsize h) (hpol h) (absW h) o res (absW h') /\
     Permutation (queued h ++ ins_ofW h o res) (rem_of res ++ queued h').
   Proof.
-    intros HI Hv.
+    intros PH PO HI Hv.
     set (vals := top :: hcost h ++ op_costs o).
+    assert (Hvals : Forall P vals).
+    { constructor; [exact Ptop|]. apply Forall_app. now split. }
     assert (Ht : In top vals) by now left.
     assert (Hh : Forall (fun a => In a vals) (hcost h)).
     { apply Forall_forall. intros x Hx. right. apply in_or_app. now left. }
     assert (Ho : Forall (fun a => In a vals) (op_costs o)).
     { apply Forall_forall. intros x Hx. right. apply in_or_app. now right. }
-    destruct (rescale_step_on (fun a => In a vals) (rk ltb vals) ltb Z.ltb (rk_ltb ltb O vals)
-                top h o Ht Hh Ho) as [Hh' E].
+    destruct (rescale_step_on (fun a => In a vals) (rk ltb vals) ltb Z.ltb
+                (rk_ltb_w P ltb O vals Hvals) top h o Ht Hh Ho) as [Hh' E].
     pose proof (step_spec (rk ltb vals top) (map_heap (rk ltb vals) h) (map_op (rk ltb vals) o)
-                  (proj1 (InvW_map ltb O vals top Ht h Hh) HI)
-                  (proj1 (valid_op_map ltb O vals top Ht h o Hh Ho) Hv)) as S.
-    rewrite E in S. destruct (stepW h o) as [h' res]. cbn [fst snd] in *.
-    destruct S as (A & B & C & D & P).
-    split; [exact (proj2 (InvW_map ltb O vals top Ht h' Hh') A)|].
+                  (proj1 (InvW_map P ltb O vals Hvals top Ht h Hh) HI)
+                  (proj1 (valid_op_map P ltb O vals Hvals top Ht h o Hh Ho) Hv)) as S.
+    rewrite E in S. pose proof (step_hcost ltb top h o) as Hc.
+    destruct (stepW h o) as [h' res]. cbn [fst snd] in *.
+    destruct S as (A & B & C & D & Pm).
+    split; [exact (proj2 (InvW_map P ltb O vals Hvals top Ht h' Hh') A)|].
     split; [exact B|]. split; [exact C|]. split.
-    - apply (pq_step_back ltb O vals top Ht (hsize h) (hpol h) (absW h) (absW h') o res Hh Hh' Ho).
+    - apply (pq_step_back P ltb O vals Hvals top Ht (hsize h) (hpol h) (absW h) (absW h') o res Hh Hc).
       exact D.
     - replace (ins_ofW h o res) with (ins_of (map_heap (rk ltb vals) h) (map_op (rk ltb vals) o) res)
         by (destruct o; reflexivity).
-      exact P.
-  Qed.
-
-  Theorem step_inv_W h o :
-    InvW ltb h -> valid_opW ltb top h o ->
-    InvW ltb (fst (stepW h o)) /\ hsize (fst (stepW h o)) = hsize h /\ hpol (fst (stepW h o)) = hpol h.
-  Proof.
-    intros HI Hv. pose proof (step_spec_W h o HI Hv) as Hs.
-    destruct (stepW h o) as [h' res]. cbn [fst]. tauto.
+      exact Pm.
   Qed.
 
   (* whole histories (the derivation of HeapHist.run_refines; the order is never looked at) *)
-  Theorem run_refines_W ops : forall h,
+  Theorem run_refines_Ww ops : forall h,
+    Forall P (hcost h) -> ops_in P ops ->
     InvW ltb h -> valid_histW ltb top h ops ->
     let '(h', outs) := runW h ops in
     InvW ltb h' /\ hsize h' = hsize h /\ hpol h' = hpol h /\
     pq_runW ltb top (hsize h) (hpol h) (absW h) ops outs (absW h') /\
     Permutation (queued h ++ insertedW ltb top h ops) (removed outs ++ queued h').
   Proof.
-    induction ops as [|o os IH]; intros h HI Hv; cbn [run insertedW].
+    induction ops as [|o os IH]; intros h PH PO HI Hv; cbn [run insertedW].
     - split; [exact HI|]. split; [reflexivity|]. split; [reflexivity|]. split.
       + apply pq_runW_nil.
       + cbn [removed flat_map app]. rewrite app_nil_r. apply Permutation_refl.
-    - destruct Hv as [Hv Hvs]. pose proof (step_spec_W h o HI Hv) as Hs.
-      destruct (stepW h o) as [h1 r]. cbn [fst] in Hvs.
-      destruct Hs as (A & E & F & S & P).
-      specialize (IH h1 A Hvs). destruct (runW h1 os) as [h2 rs].
-      destruct IH as (A' & E' & F' & S' & P').
+    - destruct Hv as [Hv Hvs]. pose proof (step_spec_Ww h o PH (Forall_inv PO) HI Hv) as Hs.
+      pose proof (step_costs_in h o PH (Forall_inv PO)) as PH1.
+      destruct (stepW h o) as [h1 r]. cbn [fst] in Hvs, PH1.
+      destruct Hs as (A & E & F & S & Pm).
+      specialize (IH h1 PH1 (Forall_inv_tail PO) A Hvs). destruct (runW h1 os) as [h2 rs].
+      destruct IH as (A' & E' & F' & S' & Pm').
       split; [exact A'|]. split; [congruence|]. split; [congruence|]. split.
       + rewrite E, F in S'. eapply pq_runW_cons; eassumption.
       + unfold removed in *. cbn [flat_map]. rewrite app_assoc.
-        eapply Permutation_trans; [apply Permutation_app_tail; exact P|].
-        rewrite <- !app_assoc. apply Permutation_app_head. exact P'.
+        eapply Permutation_trans; [apply Permutation_app_tail; exact Pm|].
+        rewrite <- !app_assoc. apply Permutation_app_head. exact Pm'.
   Qed.
+
+  Section FromInit.
+    Variables (size : nat) (pol : policy) (ops : list (@op W)).
+    Hypothesis PO : ops_in P ops.
+    Hypothesis Hv : valid_histW ltb top (h_init top size pol) ops.
+
+    Let h0 := h_init top size pol.
+    Let hf := fst (runW h0 ops).
+
+    Lemma hist_all_Ww :
+      InvW ltb hf /\ hsize hf = size /\ hpol hf = pol /\
+      pq_runW ltb top size pol (absW h0) ops (snd (runW h0 ops)) (absW hf) /\
+      Permutation (insertedW ltb top h0 ops) (removed (snd (runW h0 ops)) ++ queued hf).
+    Proof.
+      pose proof (run_refines_Ww ops h0 (init_costs_in size pol) PO (inv_init_Ww size pol) Hv) as H.
+      unfold hf. destruct (runW h0 ops) as [h' outs]. cbn [fst snd]. exact H.
+    Qed.
+
+    Theorem hist_inv_Ww : InvW ltb hf /\ hsize hf = size /\ hpol hf = pol.
+    Proof. destruct hist_all_Ww as (A & B & C & _). auto. Qed.
+
+    Theorem histories_refine_pq_Ww :
+      pq_runW ltb top size pol (absW h0) ops (snd (runW h0 ops)) (absW hf).
+    Proof. exact (proj1 (proj2 (proj2 (proj2 hist_all_Ww)))). Qed.
+
+    Theorem conservation_Ww :
+      Permutation (insertedW ltb top h0 ops) (removed (snd (runW h0 ops)) ++ queued hf).
+    Proof. exact (proj2 (proj2 (proj2 (proj2 hist_all_Ww)))). Qed.
+
+    Lemma hist_costs_in : Forall P (hcost hf).
+    Proof. unfold hf. apply run_costs_in; [apply init_costs_in | exact PO]. Qed.
+  End FromInit.
+
+  (* ---------- per-step readings ---------- *)
+
+  Theorem remove_extremal_inv_Ww h :
+    Forall P (hcost h) -> InvW ltb h ->
+    match stepW h ORem with
+    | (h', RElem p) =>
+        In p (queued h) /\
+        (forall q, In q (queued h) ->
+           better ltb (hpol h) (nth q (hcost h) top) (nth p (hcost h) top) = false) /\
+        Permutation (queued h) (p :: queued h') /\ hcost h' = hcost h
+    | (h', RFalse) => queued h = [] /\ h' = h
+    | _ => False
+    end.
+  Proof.
+    intros PH HI. pose proof (step_spec_Ww h ORem PH (Forall_nil P) HI I) as S. revert S.
+    cbn [step]. unfold remove. destruct (is_empty h) eqn:Ee.
+    - intros _. split; [|reflexivity].
+      apply Nat.eqb_eq in Ee. unfold queued. now rewrite Ee.
+    - set (h' := go_down ltb top (hsize h) _ 0). set (p := nth 0 (hp h) 0).
+      intros (_ & _ & _ & S & _).
+      inversion S as [| |az p' e' X Pm Ea Eo Er Ea'| | | | | |].
+      destruct X as [X1 X2]. split; [exact X1|]. split; [exact X2|].
+      split; [exact Pm | first [reflexivity | symmetry; assumption | assumption]].
+  Qed.
+
+  Theorem hist_remove_extremal_Ww size pol ops :
+    ops_in P ops -> valid_histW ltb top (h_init top size pol) ops ->
+    let h := fst (runW (h_init top size pol) ops) in
+    match stepW h ORem with
+    | (h', RElem p) =>
+        In p (queued h) /\
+        (forall q, In q (queued h) ->
+           better ltb pol (nth q (hcost h) top) (nth p (hcost h) top) = false) /\
+        Permutation (queued h) (p :: queued h') /\ hcost h' = hcost h
+    | (h', RFalse) => queued h = [] /\ h' = h
+    | _ => False
+    end.
+  Proof.
+    intros PO Hv h. destruct (hist_inv_Ww size pol ops PO Hv) as (HI & _ & Hp). fold h in HI, Hp.
+    rewrite <- Hp. apply remove_extremal_inv_Ww; [|exact HI]. now apply hist_costs_in.
+  Qed.
+End LiftedWeak.
+
+(* ------------------------------------------------------------------------------------ *)
+(* statements that need no order law                                                     *)
+
+Section NoOrder.
+  Context {W : Type} (ltb : W -> W -> bool) (top : W).
+
+  Notation stepW := (step ltb top).
+  Notation runW := (run ltb top).
 
   Lemma run_app_W ops1 ops2 h :
     runW h (ops1 ++ ops2) =
@@ -497,63 +644,10 @@ Section Lifted.
       destruct (runW h1 os) as [h2 rs]. cbn [fst]. tauto.
   Qed.
 
-  Section FromInit.
-    Variables (size : nat) (pol : policy) (ops : list (@op W)).
-    Hypothesis Hv : valid_histW ltb top (h_init top size pol) ops.
-
-    Let h0 := h_init top size pol.
-    Let hf := fst (runW h0 ops).
-
-    Lemma hist_all_W :
-      InvW ltb hf /\ hsize hf = size /\ hpol hf = pol /\
-      pq_runW ltb top size pol (absW h0) ops (snd (runW h0 ops)) (absW hf) /\
-      Permutation (insertedW ltb top h0 ops) (removed (snd (runW h0 ops)) ++ queued hf).
-    Proof.
-      pose proof (run_refines_W ops h0 (inv_init_W size pol) Hv) as H. unfold hf.
-      destruct (runW h0 ops) as [h' outs]. cbn [fst snd]. exact H.
-    Qed.
-
-    Theorem hist_inv_W : InvW ltb hf /\ hsize hf = size /\ hpol hf = pol.
-    Proof. destruct hist_all_W as (A & B & C & _). auto. Qed.
-
-    Theorem histories_refine_pq_W :
-      pq_runW ltb top size pol (absW h0) ops (snd (runW h0 ops)) (absW hf).
-    Proof. exact (proj1 (proj2 (proj2 (proj2 hist_all_W)))). Qed.
-
-    Theorem conservation_W :
-      Permutation (insertedW ltb top h0 ops) (removed (snd (runW h0 ops)) ++ queued hf).
-    Proof. exact (proj2 (proj2 (proj2 (proj2 hist_all_W)))). Qed.
-  End FromInit.
-
-  (* ---------- per-step readings ---------- *)
-
   Lemma queued_len_W h : InvW ltb h -> length (queued h) = hn h.
   Proof.
     intros HI. unfold queued. apply firstn_length_le.
     rewrite (invw_lp ltb h HI). exact (invw_n ltb h HI).
-  Qed.
-
-  Theorem remove_extremal_inv_W h :
-    InvW ltb h ->
-    match stepW h ORem with
-    | (h', RElem p) =>
-        In p (queued h) /\
-        (forall q, In q (queued h) ->
-           better ltb (hpol h) (nth q (hcost h) top) (nth p (hcost h) top) = false) /\
-        Permutation (queued h) (p :: queued h') /\ hcost h' = hcost h
-    | (h', RFalse) => queued h = [] /\ h' = h
-    | _ => False
-    end.
-  Proof.
-    intros HI. pose proof (step_spec_W h ORem HI I) as S. revert S.
-    cbn [step]. unfold remove. destruct (is_empty h) eqn:Ee.
-    - intros _. split; [|reflexivity].
-      apply Nat.eqb_eq in Ee. unfold queued. now rewrite Ee.
-    - set (h' := go_down ltb top (hsize h) _ 0). set (p := nth 0 (hp h) 0).
-      intros (_ & _ & _ & S & _).
-      inversion S as [| |az p' e' X Pm Ea Eo Er Ea'| | | | | |].
-      destruct X as [X1 X2]. split; [exact X1|]. split; [exact X2|].
-      split; [exact Pm | first [reflexivity | symmetry; assumption | assumption]].
   Qed.
 
   Theorem failures_leave_state_any_W h :
@@ -584,13 +678,86 @@ Section Lifted.
       + intros ->. reflexivity.
     - exists (is_full h). split; [reflexivity|]. unfold is_full. rewrite Nat.eqb_eq. now rewrite Hl.
   Qed.
+End NoOrder.
 
-  (* ---------- the statements of Props/C05.v, for the state reached by a valid history ---------- *)
+Section LiftedWeak2.
+  Context {W : Type} (P : W -> Prop) (ltb : W -> W -> bool).
+  Hypothesis O : strict_weak_order_on P ltb.
+  Variable top : W.
+  Hypothesis Ptop : P top.
+
+  Theorem hist_empty_full_truthful_Ww size pol ops :
+    ops_in P ops -> valid_histW ltb top (h_init top size pol) ops ->
+    let h := fst (run ltb top (h_init top size pol) ops) in
+    (exists b, step ltb top h OIsEmpty = (h, RBool b) /\ (b = true <-> queued h = [])) /\
+    (exists b, step ltb top h OIsFull = (h, RBool b) /\ (b = true <-> length (queued h) = size)).
+  Proof.
+    intros PO Hv h. destruct (hist_inv_Ww P ltb O top Ptop size pol ops PO Hv) as (HI & Hs & _).
+    fold h in HI, Hs. rewrite <- Hs. now apply empty_full_truthful_inv_W.
+  Qed.
+End LiftedWeak2.
+
+(* ------------------------------------------------------------------------------------ *)
+(* strict total orders: P := everything                                                  *)
+
+Section Lifted.
+  Context {W : Type} (ltb : W -> W -> bool).
+  Hypothesis O : strict_total_order ltb.
+  Variable top : W.
+
+  Let PT := fun _ : W => True.
+  Let OW : strict_weak_order_on PT ltb := total_is_weak ltb O.
+
+  Lemma all_PT (l : list W) : Forall PT l.
+  Proof. apply Forall_forall. intros x _. exact I. Qed.
+
+  Lemma all_ops_PT (ops : list (@op W)) : ops_in PT ops.
+  Proof. apply Forall_forall. intros o _. apply all_PT. Qed.
+
+  Theorem inv_init_W size pol : InvW ltb (h_init top size pol).
+  Proof. exact (inv_init_Ww PT ltb OW top I size pol). Qed.
+
+  Theorem step_spec_W h o :
+    InvW ltb h -> valid_opW ltb top h o ->
+    let '(h', res) := step ltb top h o in
+    InvW ltb h' /\ hsize h' = hsize h /\ hpol h' = hpol h /\
+    pq_stepW ltb top (hsize h) (hpol h) (absW h) o res (absW h') /\
+    Permutation (queued h ++ ins_ofW h o res) (rem_of res ++ queued h').
+  Proof. exact (step_spec_Ww PT ltb OW top I h o (all_PT _) (all_PT _)). Qed.
+
+  Theorem step_inv_W h o :
+    InvW ltb h -> valid_opW ltb top h o ->
+    InvW ltb (fst (step ltb top h o)) /\ hsize (fst (step ltb top h o)) = hsize h /\
+    hpol (fst (step ltb top h o)) = hpol h.
+  Proof.
+    intros HI Hv. pose proof (step_spec_W h o HI Hv) as Hs.
+    destruct (step ltb top h o) as [h' res]. cbn [fst]. tauto.
+  Qed.
+
+  Theorem hist_inv_W size pol ops :
+    valid_histW ltb top (h_init top size pol) ops ->
+    let h := fst (run ltb top (h_init top size pol) ops) in
+    InvW ltb h /\ hsize h = size /\ hpol h = pol.
+  Proof. exact (hist_inv_Ww PT ltb OW top I size pol ops (all_ops_PT ops)). Qed.
+
+  Theorem histories_refine_pq_W size pol ops :
+    valid_histW ltb top (h_init top size pol) ops ->
+    pq_runW ltb top size pol (absW (h_init top size pol)) ops
+            (snd (run ltb top (h_init top size pol) ops))
+            (absW (fst (run ltb top (h_init top size pol) ops))).
+  Proof. exact (histories_refine_pq_Ww PT ltb OW top I size pol ops (all_ops_PT ops)). Qed.
+
+  Theorem conservation_W size pol ops :
+    valid_histW ltb top (h_init top size pol) ops ->
+    Permutation (insertedW ltb top (h_init top size pol) ops)
+                (removed (snd (run ltb top (h_init top size pol) ops))
+                 ++ queued (fst (run ltb top (h_init top size pol) ops))).
+  Proof. exact (conservation_Ww PT ltb OW top I size pol ops (all_ops_PT ops)). Qed.
 
   Theorem hist_remove_extremal_W size pol ops :
     valid_histW ltb top (h_init top size pol) ops ->
-    let h := fst (runW (h_init top size pol) ops) in
-    match stepW h ORem with
+    let h := fst (run ltb top (h_init top size pol) ops) in
+    match step ltb top h ORem with
     | (h', RElem p) =>
         In p (queued h) /\
         (forall q, In q (queued h) ->
@@ -599,28 +766,12 @@ Section Lifted.
     | (h', RFalse) => queued h = [] /\ h' = h
     | _ => False
     end.
-  Proof.
-    intros Hv h. destruct (hist_inv_W size pol ops Hv) as (HI & _ & Hp). fold h in HI, Hp.
-    rewrite <- Hp. now apply remove_extremal_inv_W.
-  Qed.
-
-  Theorem hist_failures_leave_state_W size pol ops :
-    valid_histW ltb top (h_init top size pol) ops ->
-    let h := fst (runW (h_init top size pol) ops) in
-    (forall p, snd (stepW h (OIns p)) = RBool (negb (is_full h))) /\
-    (forall p, is_full h = true -> stepW h (OIns p) = (h, RBool false)) /\
-    (is_empty h = true -> stepW h ORem = (h, RFalse)) /\
-    (forall p c, nth p (hcolor h) White = White -> is_full h = true ->
-                 stepW h (OUpd p c) = (set_cost h p c, RUnit)).
-  Proof. intros _ h. apply failures_leave_state_any_W. Qed.
+  Proof. exact (hist_remove_extremal_Ww PT ltb OW top I size pol ops (all_ops_PT ops)). Qed.
 
   Theorem hist_empty_full_truthful_W size pol ops :
     valid_histW ltb top (h_init top size pol) ops ->
-    let h := fst (runW (h_init top size pol) ops) in
-    (exists b, stepW h OIsEmpty = (h, RBool b) /\ (b = true <-> queued h = [])) /\
-    (exists b, stepW h OIsFull = (h, RBool b) /\ (b = true <-> length (queued h) = size)).
-  Proof.
-    intros Hv h. destruct (hist_inv_W size pol ops Hv) as (HI & Hs & _). fold h in HI, Hs.
-    rewrite <- Hs. now apply empty_full_truthful_inv_W.
-  Qed.
+    let h := fst (run ltb top (h_init top size pol) ops) in
+    (exists b, step ltb top h OIsEmpty = (h, RBool b) /\ (b = true <-> queued h = [])) /\
+    (exists b, step ltb top h OIsFull = (h, RBool b) /\ (b = true <-> length (queued h) = size)).
+  Proof. exact (hist_empty_full_truthful_Ww PT ltb OW top I size pol ops (all_ops_PT ops)). Qed.
 End Lifted.
